@@ -374,4 +374,168 @@ theorem finv_reachable {P : Progs} (hP : P.wf = true) (fs : FState) (h : Reachab
   | init => exact ⟨Reachable.init, fun L hL => by simp [finit] at hL⟩
   | step _ hs ih => exact finv_step hP ih hs
 
+/-- the coarse loop statement is enabled for the looping thread and leaves watchers, watcherSet and the
+    ghost set of returned Closes alone -/
+theorem loop_step_exists {P : Progs} {s : State} {t : Tid} {th : Thread} {rest : List Instr} (kind : LoopKind)
+    (ht : s.threads t = some th) (hsk : th.skip = false) (hc : th.code = kind.instr :: rest)
+    (hk : (loopKeys s th kind).isSome = true) :
+    ∃ x, step P s (.tau t) = some x ∧ x.watchers = s.watchers ∧ x.closeRet = s.closeRet ∧ x.wset = s.wset := by
+  obtain ⟨op, code, skip, a, snap, cr, pres, res⟩ := th
+  simp only at hc hsk; subst hc; subst hsk
+  cases kind with
+  | add =>
+    simp only [step, ht, LoopKind.instr, exec, Bool.false_eq_true, if_false]
+    exact ⟨_, rfl, rfl, rfl, rfl⟩
+  | del =>
+    simp only [step, ht, LoopKind.instr, exec, Bool.false_eq_true, if_false]
+    exact ⟨_, rfl, rfl, rfl, rfl⟩
+  | rem =>
+    simp only [loopKeys] at hk
+    cases hw : s.watchers (Thread.w ⟨op, LoopKind.rem.instr :: rest, false, a, snap, cr, pres, res⟩) with
+    | none => simp [hw] at hk
+    | some wt =>
+      have hw' : s.watchers (Thread.w ⟨op, rest, false, a, snap, cr, pres, res⟩) = some wt := hw
+      simp only [step, ht, LoopKind.instr, exec, Bool.false_eq_true, if_false, hw']
+      exact ⟨_, rfl, rfl, rfl, rfl⟩
+
+/-- **Single-key transfer.** In every reachable state of the fine LTS and for every service key `k`, the value
+    of `k` in the view — what a `routes.Load(k)` scheduled at this very moment, in the middle of a per-service
+    loop, returns — is the value of `k` in a reachable state `x` of the COARSE LTS: the base (the loop statement
+    not yet executed) or the state right after the loop statement; `x` has the same watchers (closed flags,
+    names), watcherSet and returned Closes. So every state predicate about ONE key proved for the coarse LTS
+    holds for what single-key lookups observe in the fine LTS. -/
+theorem fine_single_key {P : Progs} (hP : P.wf = true) (fs : FState) (hr : Reachable (fstep P) finit fs) (k : Svc) :
+    ∃ x, Reachable (step P) init x ∧
+      (x = fs.base ∨ ∃ L, fs.loop = some L ∧ step P fs.base (.tau L.t) = some x) ∧
+      x.watchers = fs.base.watchers ∧ x.closeRet = fs.base.closeRet ∧ x.wset = fs.base.wset ∧
+      (fs.view P.storeSame).routes k = x.routes k := by
+  have h := finv_reachable hP fs hr
+  by_cases hnone : fs.loop = none
+  · exact ⟨fs.base, h.base, Or.inl rfl, rfl, rfl, rfl, by simp [FState.view, hnone]⟩
+  · obtain ⟨L, hloop⟩ := Option.ne_none_iff_exists'.1 hnone
+    obtain ⟨th, rest, h1, h2, h3, h4⟩ := h.loop L hloop
+    obtain ⟨x, hx, w1, w2, w3⟩ := loop_step_exists (P := P) L.kind h1 h2 h3 (by simp [h4])
+    have hrx : Reachable (step P) init x := Reachable.step h.base hx
+    have pre : (fs.view P.storeSame).routes k = fs.base.routes k →
+        ∃ x, Reachable (step P) init x ∧
+          (x = fs.base ∨ ∃ L, fs.loop = some L ∧ step P fs.base (.tau L.t) = some x) ∧
+          x.watchers = fs.base.watchers ∧ x.closeRet = fs.base.closeRet ∧ x.wset = fs.base.wset ∧
+          (fs.view P.storeSame).routes k = x.routes k :=
+      fun e => ⟨fs.base, h.base, Or.inl rfl, rfl, rfl, rfl, e⟩
+    have post : (fs.view P.storeSame).routes k = x.routes k →
+        ∃ x, Reachable (step P) init x ∧
+          (x = fs.base ∨ ∃ L, fs.loop = some L ∧ step P fs.base (.tau L.t) = some x) ∧
+          x.watchers = fs.base.watchers ∧ x.closeRet = fs.base.closeRet ∧ x.wset = fs.base.wset ∧
+          (fs.view P.storeSame).routes k = x.routes k :=
+      fun e => ⟨x, hrx, Or.inr ⟨L, hloop, hx⟩, w1, w2, w3, e⟩
+    have hview : fs.view P.storeSame = viewOf P.storeSame fs.base th L := by
+      simp [FState.view, hloop, h1]
+    rw [hview] at pre post ⊢
+    cases hkind : L.kind with
+    | add =>
+      rw [hkind] at h3 h4
+      simp only [loopKeys, Option.some.injEq] at h4
+      rcases step_routes h1 h3 hx with ⟨_, _, _, c⟩ | ⟨_, _, _, c, _⟩ | ⟨c, _⟩ | ⟨c, _⟩
+      · have := c (Or.inl rfl); rw [h2] at this; cases this
+      · rcases addLoop_prefix_key P.storeSame ⟨th.w, th.desc⟩ L.done L.todo ⟨fs.base.routes, fs.base.waiting, []⟩ k with e | e
+        · exact pre (by simp only [viewOf, hkind]; exact e)
+        · refine post ?_
+          simp only [viewOf, hkind]
+          rw [e, ← h4, c, (addLoop_eq_coarse P.storeSame ⟨th.w, th.desc⟩ th.desc.svcs fs.base.routes fs.base.waiting).1]
+      · cases c
+      · cases c
+    | del =>
+      rw [hkind] at h3 h4
+      simp only [loopKeys, Option.some.injEq] at h4
+      have hnd : (L.done ++ L.todo).Nodup := by
+        rw [← h4]; exact ((inv2_reachable hP fs.base h.base).2.svc.nodup _).filter _
+      rcases step_routes h1 h3 hx with ⟨_, _, _, c⟩ | ⟨c, _⟩ | ⟨_, _, q, hq, c, _⟩ | ⟨c, _⟩
+      · have := c (Or.inr (Or.inl rfl)); rw [h2] at this; cases this
+      · cases c
+      · rcases relLoop_prefix_key L.done L.todo hnd ⟨fs.base.routes, delWaiting fs.base th, fs.base.svcRoutes⟩ k with e | e
+        · exact pre (by simp only [viewOf, hkind]; exact e)
+        · refine post ?_
+          simp only [viewOf, hkind]
+          rw [e, ← h4, c, hq]; rfl
+      · cases c
+    | rem =>
+      rw [hkind] at h3 h4
+      simp only [loopKeys] at h4
+      rcases step_routes h1 h3 hx with ⟨_, _, _, c⟩ | ⟨c, _⟩ | ⟨c, _⟩ | ⟨_, _, wt, q, hwt, hq, c, _⟩
+      · have := c (Or.inr (Or.inr rfl)); rw [h2] at this; cases this
+      · cases c
+      · cases c
+      · simp only [hwt, Option.some.injEq] at h4
+        have hnd : (L.done ++ L.todo).Nodup := by
+          rw [← h4]; exact (inv2_reachable hP fs.base h.base).2.svc.nodup _
+        rcases relLoop_prefix_key L.done L.todo hnd ⟨fs.base.routes, fs.base.waiting, fs.base.svcRoutes⟩ k with e | e
+        · exact pre (by simp only [viewOf, hkind]; exact e)
+        · refine post ?_
+          simp only [viewOf, hkind]
+          rw [e, ← h4, c, hq]
+
+/-- **The exit step is invisible**: when every key of the range has been processed the view's routes are exactly
+    the routes after the coarse loop statement — the unrolled loop really is that statement. -/
+theorem fine_exit_invisible {P : Progs} (hP : P.wf = true) (fs : FState) (hr : Reachable (fstep P) finit fs)
+    (L : Loop) (hloop : fs.loop = some L) (htodo : L.todo = []) (x : State)
+    (hx : step P fs.base (.tau L.t) = some x) : (fs.view P.storeSame).routes = x.routes := by
+  have h := finv_reachable hP fs hr
+  obtain ⟨th, rest, h1, h2, h3, h4⟩ := h.loop L hloop
+  have hview : fs.view P.storeSame = viewOf P.storeSame fs.base th L := by
+    simp [FState.view, hloop, h1]
+  rw [hview, htodo, List.append_nil] at *
+  cases hkind : L.kind with
+  | add =>
+    rw [hkind] at h3 h4
+    simp only [loopKeys, Option.some.injEq] at h4
+    rcases step_routes h1 h3 hx with ⟨_, _, _, c⟩ | ⟨_, _, _, c, _⟩ | ⟨c, _⟩ | ⟨c, _⟩
+    · have := c (Or.inl rfl); rw [h2] at this; cases this
+    · simp only [viewOf, hkind]
+      rw [← h4, c, (addLoop_eq_coarse P.storeSame ⟨th.w, th.desc⟩ th.desc.svcs fs.base.routes fs.base.waiting).1]
+    · cases c
+    · cases c
+  | del =>
+    rw [hkind] at h3 h4
+    simp only [loopKeys, Option.some.injEq] at h4
+    rcases step_routes h1 h3 hx with ⟨_, _, _, c⟩ | ⟨c, _⟩ | ⟨_, _, q, hq, c, _⟩ | ⟨c, _⟩
+    · have := c (Or.inr (Or.inl rfl)); rw [h2] at this; cases this
+    · cases c
+    · simp only [viewOf, hkind]
+      rw [← h4, c, hq]; rfl
+    · cases c
+  | rem =>
+    rw [hkind] at h3 h4
+    simp only [loopKeys] at h4
+    rcases step_routes h1 h3 hx with ⟨_, _, _, c⟩ | ⟨c, _⟩ | ⟨c, _⟩ | ⟨_, _, wt, q, hwt, hq, c, _⟩
+    · have := c (Or.inr (Or.inr rfl)); rw [h2] at this; cases this
+    · cases c
+    · cases c
+    · simp only [hwt, Option.some.injEq] at h4
+      simp only [viewOf, hkind]
+      rw [← h4, c, hq]
+
+/-- the guard of `fstep` ("no other thread executes a loop statement while a loop is in progress") never
+    fires in a reachable state: both threads would hold the table mutex -/
+theorem fine_guard_vacuous {P : Progs} (hP : P.wf = true) (fs : FState) (hr : Reachable (fstep P) finit fs)
+    (L : Loop) (hloop : fs.loop = some L) (u : Tid) (thu : Thread) (i : Instr) (rest0 : List Instr)
+    (hth : fs.base.threads u = some thu) (hcode : thu.code = i :: rest0) (hsk : thu.skip = false)
+    (hi : i = .sAdd ∨ i = .sDel ∨ i = .sRemove) : u = L.t := by
+  have h := finv_reachable hP fs hr
+  obtain ⟨th, rest, h1, h2, h3, _⟩ := h.loop L hloop
+  have i1 := (inv2_reachable hP fs.base h.base).1
+  have holds : ∀ (t : Tid) (x : Thread) (j : Instr) (r : List Instr), fs.base.threads t = some x → x.skip = false →
+      x.code = j :: r → (j = .sAdd ∨ j = .sDel ∨ j = .sRemove) → fs.base.tmu = some t := by
+    intro t x j r hx hs hc hj
+    have hwf := (i1.th t x hx).wf hs
+    rw [hc] at hwf
+    simp only [wfCode] at hwf
+    have : x.a.ht = true := by
+      cases hh : x.a.ht with
+      | true => rfl
+      | false => rcases hj with rfl | rfl | rfl <;> simp [A.step, hh] at hwf
+    exact (i1.th t x hx).ht this
+  have a := holds u thu i rest0 hth hsk hcode hi
+  have b := holds L.t th L.kind.instr rest h1 h2 h3 (by cases L.kind <;> simp [LoopKind.instr])
+  rw [a] at b; exact Option.some.inj b
+
 end GB.C11
